@@ -979,6 +979,7 @@ func (r *Reader) parseBodyElementsInOrder(data []byte) error {
 
 	decoder := xml.NewDecoder(strings.NewReader(string(data)))
 	var inBody bool
+	var depth int // element nesting depth below <w:body>
 	var paraIndex, tableIndex int
 
 	for {
@@ -996,6 +997,13 @@ func (r *Reader) parseBodyElementsInOrder(data []byte) error {
 			}
 
 			if !inBody {
+				continue
+			}
+
+			// Only direct children of the body are body elements; paragraphs and
+			// tables nested in table cells, text boxes etc. belong to their container
+			depth++
+			if depth != 1 {
 				continue
 			}
 
@@ -1019,8 +1027,13 @@ func (r *Reader) parseBodyElementsInOrder(data []byte) error {
 				}
 			}
 		case xml.EndElement:
-			if t.Name.Local == "body" {
+			if !inBody {
+				continue
+			}
+			if depth == 0 && t.Name.Local == "body" {
 				inBody = false
+			} else {
+				depth--
 			}
 		}
 	}
